@@ -353,6 +353,99 @@ func (p *prop) runModule(c core.Case, w *core.Worker, res *core.Result, r *rand.
 	}
 }
 
+// runSilent: packages in which the stateful generator is called for every type, changes its state and renders nothing
+// (s0, s2) between packages in which it renders (s1, s3): an instance that rendered nothing is still a used instance.
+func (p *prop) runSilent(c core.Case, w *core.Worker, res *core.Result, r *rand.Rand, idx int) {
+	root := filepath.Join(w.Scratch, fmt.Sprintf("c05s-%d-%d", c.ID, idx))
+	pristine := root + "-pristine"
+	defer os.RemoveAll(root)
+	defer os.RemoveAll(pristine)
+	m, err := fixture.New(w.Scratch, filepath.Base(pristine), mod, "1.24")
+	if err != nil {
+		res.Inconclusive = append(res.Inconclusive, err.Error())
+		return
+	}
+	dirs := []string{"s0", "s1", "s2", "s3"}
+	state := specgen.GenSpec{Name: "state", Alias: true, Pkg: map[string]specgen.Behav{}, Def: specgen.Behav{Mode: "stateful"}}
+	for i, d := range dirs {
+		pk := layout.Pkg{Dir: d, Name: d, Types: []string{"Shared1", "Shared2", fmt.Sprintf("Own%d", i)}, Tags: []string{"+gengo:state", "+gengo:proto"},
+			Aliases: []string{"AliasShared"}}
+		pk.Write(m)
+		mode := "stateful"
+		if i%2 == 0 {
+			mode = "stateful-silent"
+		}
+		state.Pkg[mod+"/"+d] = specgen.Behav{Mode: mode, Salt: "s", Imports: []string{"bytes.Buffer"}}
+	}
+	gens := []specgen.GenSpec{state, {Name: "proto", Proto: true}}
+	run := func(entries []string, child bool) (map[string]map[string]string, string) {
+		_ = os.RemoveAll(root)
+		if err := fixture.CopyTree(pristine, root); err != nil {
+			panic(err)
+		}
+		mm := &fixture.Module{Root: root, Path: mod, GoVersion: "1.24"}
+		args := specgen.Args{Entrypoint: entries, OutputFileBaseName: "zz_generated"}
+		var rr specgen.Result
+		if child {
+			rr = specgen.RunChild(w.Scratch, specgen.RunSpec{Dir: mm.Root, Args: args, Gens: gens})
+			res.Inc("fresh_process_runs")
+		} else {
+			rr = specgen.RunInProcess(mm.Root, args, gens)
+		}
+		res.Inc("gengo_runs")
+		res.Inc("runs_with_packages_where_a_generator_renders_nothing")
+		if rr.Failed {
+			return nil, rr.Err + rr.Panic + rr.ExitStatus
+		}
+		out := map[string]map[string]string{}
+		for _, d := range dirs {
+			out[d] = filesOf(mm, d)
+		}
+		return out, ""
+	}
+	alone := map[string]map[string]string{}
+	for _, d := range dirs {
+		o, e := run([]string{"./" + d}, true)
+		if e != "" {
+			res.Fail("execute", "execute-error", "Execute failed for "+d+" alone: "+clip(e, 800), nil)
+			return
+		}
+		alone[d] = o[d]
+	}
+	if len(alone["s1"]) == 0 || len(alone["s3"]) == 0 {
+		res.Inconclusive = append(res.Inconclusive, "the rendering packages of the silent scenario produced no file when run alone")
+		return
+	}
+	n := 0
+	for _, sub := range [][]string{{"s0", "s1"}, {"s1", "s2"}, {"s0", "s1", "s2", "s3"}, {"s0", "s2", "s3"}, {"s1", "s2", "s3"}, {"s0", "s3"}} {
+		for _, rev := range []bool{false, true} {
+			entries := make([]string, len(sub))
+			for i, d := range sub {
+				k := i
+				if rev {
+					k = len(sub) - 1 - i
+				}
+				entries[k] = "./" + d
+			}
+			n++
+			o, e := run(entries, n%3 == 0)
+			variant := fmt.Sprintf("silent scenario, entrypoints %v", entries)
+			res.Evals++
+			res.NonTrivial(fmt.Sprintf("%d|%d|%s", c.Seed, idx, variant))
+			if e != "" {
+				res.Fail("execute", "execute-error", variant+": "+clip(e, 800), nil)
+				continue
+			}
+			for _, d := range sub {
+				res.Inc("package_outputs_compared_with_alone_run")
+				if df := diff(alone[d], o[d]); df != "" {
+					res.Fail("independent-of-run", fmt.Sprintf("%d packages, some silent", len(sub)), fmt.Sprintf("%s: the files of %s differ from the run of %s alone:\n%s", variant, d, d, clip(df, 1200)), nil)
+				}
+			}
+		}
+	}
+}
+
 // runWorkspace: one run spanning two modules of a go.work workspace whose go.mod files differ in what the formatter
 // cares about (go directive on either side of 1.13: 0644 vs 0o644; a module path without a dot: import grouping).
 // Each module's package alone vs both together, both orders.
@@ -450,6 +543,7 @@ func (p *prop) Run(c core.Case, w *core.Worker) core.Result {
 	for i := 0; i < pa.N; i++ {
 		p.runModule(c, w, &res, r, i)
 		p.runWorkspace(c, w, &res, r, i)
+		p.runSilent(c, w, &res, r, i)
 	}
 	return res
 }
